@@ -1,6 +1,6 @@
 (* C01 correspondence harness: the Python driver writes observed implementation behaviour as [case] terms,
    [chk] evaluates the SAME model definitions the theorems are about (vm_compute). *)
-From Miller Require Import Base.Bytes Base.Record C01.Model C01.ModelJson C01.ModelXtab C01.ModelLite C01.ModelPprint C01.ModelMd.
+From Miller Require Import Base.Bytes Base.Record C01.Model C01.ModelJson C01.ModelXtab C01.ModelLite C01.ModelPprint C01.ModelMd C01.ModelDkvpx C01.ModelIrs.
 Open Scope char_scope.
 
 (* compact literals for the generated case files: bytes as a hex string (parses much faster than a list of numbers) *)
@@ -32,15 +32,18 @@ Definition obytes_eqb (a b : option bytes) : bool :=
 Definition orecs_eqb (a b : option (list record)) : bool :=
   match a, b with Some x, Some y => records_eqb x y | None, None => true | _, _ => false end.
 
-(* formats: 0 tsv, 1 dkvp, 2 nidx, 3 csv, 4 json, 5 xtab, 6 csvlite, 7 pprint, 8 markdown *)
+(* formats: 0 tsv, 1 dkvp, 2 nidx, 3 csv, 4 json, 5 xtab, 6 csvlite, 7 pprint, 8 markdown, 9 dkvpx *)
+Definition sep1 (l : list bytes) (i : nat) (d : ascii) : ascii := match sp l i with c :: _ => c | [] => d end.
 Definition model_write (fmt : N) (f : list bool) (s : list bytes) (recs : list record) : option bytes :=
   match fmt with
   | 0%N => write_tsv (fl f 0) (fl f 1) recs
-  | 1%N => Some (write_dkvp (sp s 0) (sp s 1) (fl f 0) recs)
-  | 2%N => Some (write_nidx (sp s 0) (fl f 0) recs)
+  (* DKVP / NIDX: a third / second separator, when given, is a custom ORS *)
+  | 1%N => Some (match sp s 2 with [] => write_dkvp (sp s 0) (sp s 1) (fl f 0) recs | ors => write_dkvp_ors (sp s 0) (sp s 1) ors recs end)
+  | 2%N => Some (match sp s 1 with [] => write_nidx (sp s 0) (fl f 0) recs | ors => write_nidx_ors (sp s 0) ors recs end)
   | 3%N => write_csv (fl f 0) (fl f 1) (fl f 2) (comma_of s) recs
   | 4%N => Some (write_json (fl f 0) (fl f 1) recs)
   | 6%N => Some (write_csvlite (sp s 0) (fl f 0) (fl f 1) recs)
+  | 9%N => Some (write_dkvpx (sp s 0) (sp s 1) (fl f 0) recs)
   | _ => None
   end.
 
@@ -49,8 +52,11 @@ Definition model_write (fmt : N) (f : list bool) (s : list bytes) (recs : list r
 Definition model_read (fmt : N) (f : list bool) (s : list bytes) (text : bytes) : option (option (list record)) :=
   match fmt with
   | 0%N => Some (if fl f 0 then read_tsv_implicit (fl f 1) (fl f 2) text else read_tsv (fl f 1) (fl f 2) text)
-  | 1%N => Some (Some (read_dkvp (sp s 0) (sp s 1) (fl f 0) (fl f 1) text))
-  | 2%N => Some (Some (if fl f 1 then read_nidx_ws text else read_nidx (sp s 0) (fl f 0) text))
+  (* DKVP / NIDX: a third / second separator, when given, is a custom IRS *)
+  | 1%N => Some (Some (match sp s 2 with [] => read_dkvp (sp s 0) (sp s 1) (fl f 0) (fl f 1) text
+                                   | irs => read_dkvp_irs irs (sp s 0) (sp s 1) (fl f 0) (fl f 1) text end))
+  | 2%N => Some (Some (if fl f 1 then read_nidx_ws text
+                       else match sp s 1 with [] => read_nidx (sp s 0) (fl f 0) text | irs => read_nidx_irs irs (sp s 0) (fl f 0) text end))
   | 3%N => match csv_rows (fl f 1) (comma_of s) (strip_bom text) with
            | None => None
            | Some _ => Some (read_csv (fl f 0) (fl f 1) (fl f 2) (fl f 3) (comma_of s) text)
@@ -65,6 +71,8 @@ Definition model_read (fmt : N) (f : list bool) (s : list bytes) (text : bytes) 
                  else if fl f 3 then read_pprint_implicit (fl f 0) (fl f 1) text else read_pprint (fl f 0) (fl f 1) text)
   (* markdown: dedupe, ragged, (unused), implicit header *)
   | 8%N => Some (read_markdown (fl f 3) (fl f 0) (fl f 1) text)
+  (* DKVPX: dedupe; IFS, IPS (one byte each) *)
+  | 9%N => Some (Some (read_dkvpx (sep1 s 0 ",") (sep1 s 1 "=") (fl f 0) text))
   | _ => Some None
   end.
 
